@@ -254,6 +254,7 @@ def tasks(tier, seed):
                 k += 1
     rnd.shuffle(combos)
     must = [("best3d", "paths", "save", "from_file"), ("4x3pad", "nested", "save_json", "get_outputs_from_file"),
+            ("4x3pad", "plain", "save", "from_file"), ("col", "paths", "save", "get_outputs_from_file"),
             ("1x1", "odd", "save_json", "from_file")]
     chosen = must + [c for c in combos if c not in must][: (9 if tier == "quick" else 21)]
     for p, m, via, loader in chosen:
@@ -311,6 +312,7 @@ def _load(pk, path, name, loader):
 def _roundtrip(pk, params, inp, root):
     sv = pk.run_save
     out0, data, actions = _output(pk, inp, "p", params["payload"], params["meta"], ids=params["via"] == "save")
+    orig = {"data": _entries(data), "actions": _entries(actions)}        # what the run produced, recorded BEFORE anything is saved
     if params["via"] == "save":
         sv.save(Path(root) / "model", "run-A", out0)
         path = os.path.join(root, "model", "data.json")
@@ -318,7 +320,8 @@ def _roundtrip(pk, params, inp, root):
         path = os.path.join(root, "data.json")
         sv.save_json(Path(path), "run-A", out0)
     got = _load(pk, path, "run-A", params["loader"])
-    return {"orig": {"data": _entries(data), "actions": _entries(actions)}, "got": got,
+    after = {"data": _entries(data), "actions": _entries(actions)}       # the caller's own matrices after the save
+    return {"orig": orig, "got": got, "callers_after": after,
             "meta_ref": _stringified(META[params["meta"]]()), "names": sorted(_read_raw(pk, path).keys())}
 
 
@@ -344,14 +347,15 @@ def _sequence(pk, params, inp, root):
     steps = []
     for h in range(params["history"]):
         o, d, a = _output(pk, inp, f"h{h}", pays[h], metas[h % len(metas)], ids=via_save)
-        do_save(f"old{h}", o)
         ref[f"old{h}"] = {"data": _entries(d), "actions": _entries(a), "meta_ref": _stringified(META[metas[h % len(metas)]]())}
+        do_save(f"old{h}", o)
     pool = list(params.get("names") or [f"name{i}" for i in range(params["pool"])])
     if params["history"] and not params.get("names"):
         pool[-1] = "old0"          # one pool name collides with an earlier run
     for i in range(params["saves"]):
         name = pool[inp.choose(len(pool), f"name-of-save-{i}")]
         o, d, a = _output(pk, inp, f"s{i}", pays[(i + 2) % len(pays)], metas[(i + 1) % len(metas)], ids=via_save)
+        produced = {"data": _entries(d), "actions": _entries(a), "meta_ref": _stringified(META[metas[(i + 1) % len(metas)]]())}
         before_bytes = open(path, "rb").read() if os.path.exists(path) else None
         before_raw = _read_raw(pk, path) or {}
         raised = do_save(name, o)
@@ -359,7 +363,7 @@ def _sequence(pk, params, inp, root):
         after_raw = _read_raw(pk, path) or {}
         existed = name in ref
         if not existed:
-            ref[name] = {"data": _entries(d), "actions": _entries(a), "meta_ref": _stringified(META[metas[(i + 1) % len(metas)]]())}
+            ref[name] = produced
         steps.append({"name": name, "existed": existed, "raised": raised, "bytes_unchanged": before_bytes == after_bytes,
                       "names_after": sorted(after_raw.keys()), "names_expected": sorted(ref.keys()),
                       "earlier_raw_before": {k: before_raw[k] for k in sorted(before_raw)},
@@ -520,6 +524,9 @@ def claims(params, inp, out, lg):
         cl.append(("exactly-one-entry", out["names"] == (["run-A"] if params["kind"] == "roundtrip" else ["the-run"]), "C19/names"))
         if params["kind"] == "roundtrip":
             cl.append(("metadata-up-to-json-stringification", _meta_equal(g["meta"], out["meta_ref"]), "C19/metadata"))
+            ca = out["callers_after"]
+            cl.append(("saving-leaves-the-callers-matrices-alone", lg.And(_same_matrix(lg, o["data"], ca["data"]), _same_matrix(lg, o["actions"], ca["actions"])),
+                       "C19/callers-data-changed"))
         return cl
     for i, st in enumerate(out["steps"]):
         cl.append((f"names-are-first-wins-union:save={i}", st["names_after"] == st["names_expected"], "C19/sequence/names"))
